@@ -748,6 +748,11 @@ func cmdRun(args []string) int {
 	}
 	fmt.Printf("lzsim: %s %s: runs=%d nontrivial=%d distinct=%d ops=%d ticks=%d states=%d aborted=%v others=%v unfired=%v det=%d/%d wall=%.1fs\n",
 		p.ID, *tier, tot.Runs, tot.NonTrivial, dn, tot.OpsTotal, tot.TicksTotal, len(states), tot.Aborted, tot.Others, unfired, detChecked-detMismatch, detChecked, wall)
+	if exit == 1 {
+		// at least one violation was confirmed from its replay file in a
+		// fresh process: that verdict stands, whatever else went wrong
+		return 1
+	}
 	if infra {
 		return 2
 	}
